@@ -9,15 +9,6 @@ import (
 
 // C11 — no storage failure is swallowed and turned into a success; a failed operation changes nothing.
 
-func vhStoredRole(s *vhStore, docID string) *roleImpl {
-	d, ok := s.docs[docID]
-	if !ok {
-		return nil
-	}
-	r, _ := d.v.(*roleImpl)
-	return r
-}
-
 // VHarness_C11_DeleteRole: soft delete of a role through casUpdatePrincipal, every storage outcome.
 func VHarness_C11_DeleteRole() {
 	s := vhNewStore(true, vParam("interfere", 1) == 1)
